@@ -927,6 +927,8 @@ theorem applyOp_local (t : St) (op : Op) (h : Consistent t) (hl : op.local t) : 
     | ok s' => exact attach_local atts t s' h hr
   | setLabels lab => exact setLabels_local lab t hl
   | prune => exact prune_local t h
+  | addNodeObj r id => rw [applyOp_addNodeObj t r id h]; exact Local.refl t
+  | addAttackerObj a id e r => rw [applyOp_addAttackerObj t a id e r h]; exact Local.refl t
 
 /-- … hence every history -/
 theorem foldl_applyOp_local (ops : List Op) (t : St) (h : Consistent t) (hl : opsLocal t ops) :
